@@ -466,7 +466,7 @@ def _fund_input(ch: Choices, w: WalletSpec, cosigners: Sequence[Cosigner], n_inp
     # the sighash type, from the set that is legal for this input: taproot refuses a SINGLE
     # with no output of its own index, so that one is drawn only where the payments reach it
     legal = [t for t in SIGHASH_TYPES if not (w.kind == "taproot" and t is not None and t & 3 == SINGLE and vin_i >= n_pay)]
-    psbt_in.sig_hash_type = legal[ch.draw(len(legal), "in.sighash")]
+    psbt_in.sig_hash_type = ch.weighted([(t, 3 if t is None else 2 if t == ALL else 1) for t in legal], "in.sighash")
     for name, mapping in w.preimages.items():
         setattr(psbt_in, name, dict(mapping))
     # the Updater: on a scratch psbt of this one input, so that the map carries what psbt_size reads
